@@ -193,7 +193,8 @@ def src_hash(fn):
 
 def function_guards(c, suffix, exits, obl_names):
     """Vacuity guards of one (variant of a) function contract, on the merged result."""
-    if exits.get(suffix + 'return', 0) == 0 and not getattr(c.spec_cls, 'never_returns', False):
+    if exits.get(suffix + 'return', 0) == 0 and not getattr(c.spec_cls, 'never_returns', False) \
+            and not getattr(c, 'never_returns', False):
         return f'{suffix} vacuity: no normal exit is reachable under the contract'.strip()
     mark = c.fn.__qualname__ + suffix
     for k, lc in c.loops.items():
@@ -407,11 +408,13 @@ class Verifier:
             if outcome == 'return':
                 res.exits['return'] = res.exits.get('return', 0) + 1
                 ns['result'] = result
-                if c.is_init and cc is not None and cc.shape is not None and \
+                if c.is_init and c.check_fields and cc is not None and cc.shape is not None and \
                         isinstance(bound.get('self'), SObj):
                     # a constructor leaves an object with every field its class contract names
                     shp = calls._obj_shape(cc.shape)
-                    missing = [f for f in getattr(shp, 'fields', {}) if f not in bound['self'].fields]
+                    late = c.check_fields if isinstance(c.check_fields, (list, tuple)) else ()
+                    missing = [f for f in getattr(shp, 'fields', {})
+                               if f not in bound['self'].fields and f not in late]
                     if missing:
                         ctx.oblige(f'{short}/post/constructed_object_has_its_fields', False,
                                    where=short)
@@ -425,8 +428,12 @@ class Verifier:
                     ctx.oblige(f'{short}/post/result', it.eq(result, spec_val), where=short)
                 ctx.oblige(f'{short}/frame', calls.frame_condition(it, c, bound, old), where=short)
                 if cc is not None and cc.shape is not None and 'self' in bound:
-                    ctx.oblige(f'{short}/separation', calls.separation_ok(bound['self']),
-                               where=short)
+                    from .dsl import Alias as _Alias
+                    _shp = calls._obj_shape(cc.shape)
+                    _decl = {k: s_.other for k, s_ in getattr(_shp, 'fields', {}).items()
+                             if isinstance(s_, _Alias)}
+                    ctx.oblige(f'{short}/separation',
+                               calls.separation_ok(bound['self'], _decl), where=short)
                 for exc, (kind, cfn) in c.raises.items():
                     if kind == 'iff' and cfn is not None:
                         ctx.oblige(f'{short}/noexc/{exc.__name__}',
